@@ -2,6 +2,7 @@ package kv
 
 import (
 	"bytes"
+	"encoding/hex"
 	"encoding/json"
 	"fmt"
 	"os"
@@ -29,6 +30,11 @@ type ChildSpec struct {
 	Profile  string  `json:"profile,omitempty"` // dump hook hit counts here at exit
 	NoClose  bool    `json:"no_close,omitempty"`
 	SleepEnd int     `json:"sleep_end_ms,omitempty"` // idle time before close (lets background work reach its sites)
+	// PJournal makes the journal use pwrite(2) (on the O_APPEND descriptor it still appends), so that
+	// faults injected into write(2) never hit the journal itself
+	PJournal bool `json:"pjournal,omitempty"`
+	// DumpState: before closing, write the result of a full scan here ("K <hexkey> <len> <hash>" lines)
+	DumpState string `json:"dump_state,omitempty"`
 }
 
 // ProgramOf regenerates the program of a spec (parent and child compute the same).
@@ -70,7 +76,39 @@ func ApplyUnit(m *Model, op Op) {
 
 var journalFile *os.File
 
-func jwrite(fd int, s string) { syscall.Write(fd, []byte(s)) }
+var journalPwrite bool
+
+func jwrite(fd int, s string) {
+	if journalPwrite {
+		syscall.Pwrite(fd, []byte(s), 0)
+		return
+	}
+	syscall.Write(fd, []byte(s))
+}
+
+// ValSig is the representation of a value in a state dump.
+func ValSig(v []byte) string { return fmt.Sprintf("%d %016x", len(v), core.HashStr(string(v))) }
+
+// ReadStateDump parses a DumpState file; ok is false if the dump is missing or incomplete.
+func ReadStateDump(path string) (map[string]string, bool) {
+	b, err := os.ReadFile(path)
+	if err != nil {
+		return nil, false
+	}
+	st := map[string]string{}
+	done := false
+	for _, l := range strings.Split(string(b), "\n") {
+		f := strings.SplitN(l, " ", 3)
+		switch {
+		case f[0] == "K" && len(f) == 3:
+			k, _ := hex.DecodeString(f[1])
+			st[string(k)] = f[2]
+		case f[0] == "END":
+			done = true
+		}
+	}
+	return st, done
+}
 
 // ChildMain is the entry point of `kvmon crashchild <spec.json>`.
 func ChildMain(args []string) {
@@ -89,6 +127,7 @@ func ChildMain(args []string) {
 		fmt.Fprintln(os.Stderr, err)
 		os.Exit(2)
 	}
+	journalPwrite = s.PJournal
 	journalFile = jf // keep the descriptor open: an unreferenced *os.File is closed by its finalizer
 	jfd := int(jf.Fd())
 	verifhook.SetJournalFd(jfd)
@@ -161,6 +200,24 @@ func ChildMain(args []string) {
 	}
 	if s.SleepEnd > 0 {
 		time.Sleep(time.Duration(s.SleepEnd) * time.Millisecond)
+	}
+	if s.DumpState != "" {
+		var sb strings.Builder
+		if it, err := eng.GetIterator(); err == nil {
+			it.SeekToFirst()
+			for _, p := range Drain(it, 1<<22) {
+				if !p.Tomb {
+					fmt.Fprintf(&sb, "K %s %s\n", hex.EncodeToString(p.K), ValSig(p.V))
+				}
+			}
+			sb.WriteString("END\n")
+		} else {
+			sb.WriteString("ITERERR " + err.Error() + "\n")
+		}
+		if f, err := os.OpenFile(s.DumpState, os.O_WRONLY|os.O_CREATE|os.O_APPEND, 0644); err == nil {
+			syscall.Pwrite(int(f.Fd()), []byte(sb.String()), 0)
+			f.Close()
+		}
 	}
 	if !s.NoClose {
 		if err := eng.Close(); err != nil {
